@@ -90,6 +90,72 @@ def skeleton_defs(tier):
     return [("K", d) for d in fragment.skeletons(8, 3)]
 
 
+def feature_subsets(defn, jobs):
+    """job subsets defined by a behavioural feature (incomplete evidence on
+    definitions too large for all 2^m subsets): loops run once only / some
+    loop run twice; left through a break / never through a break; every OR
+    takes one branch / every OR takes all its branches; detached / not.
+    Returns distinct proper non-empty index lists."""
+    break_types, detach_types = set(), set()
+    ors = []
+
+    def first_types(seq):
+        for it in seq:
+            if it[0] == 'ev':
+                return {it[1]}
+            if it[0] in ('and', 'or', 'xor'):
+                acc = set()
+                for b in it[1]:
+                    acc |= first_types(b)
+                return acc
+            if it[0] == 'loop':
+                return first_types(it[1])
+        return set()
+
+    def walk(seq):
+        for it in seq:
+            if it[0] == 'loop':
+                walk(it[1])
+            elif it[0] in ('and', 'or', 'xor'):
+                if it[0] == 'or':
+                    ors.append([first_types(b) for b in it[1]])
+                for b in it[1]:
+                    if b and b[-1] == ('break',):
+                        break_types.update(dsl.event_names(b))
+                    if b and b[-1] == ('detach',):
+                        detach_types.update(dsl.event_names(b)[-1:])
+                    walk(b)
+    walk(defn)
+    feats = {}
+    for i, job in enumerate(jobs):
+        types = [t for _, t, _ in job]
+        tset = set(types)
+        once = len(types) == len(tset)
+        feats.setdefault("loops_once" if once else "loop_twice", []).append(i)
+        if break_types:
+            feats.setdefault("via_break" if tset & break_types
+                             else "no_break", []).append(i)
+        if detach_types:
+            feats.setdefault("detached" if tset & detach_types
+                             else "not_detached", []).append(i)
+        if ors:
+            taken = [sum(1 for ft in o if ft & tset) for o in ors]
+            live = [(k, len(o)) for k, o in zip(taken, ors) if k > 0]
+            if live and all(k == 1 for k, _ in live):
+                feats.setdefault("or_single", []).append(i)
+            if live and all(k == n for k, n in live):
+                feats.setdefault("or_all", []).append(i)
+            if live and all(k >= 2 for k, _ in live):
+                feats.setdefault("or_multi", []).append(i)
+    out, seen = [], set()
+    for name, idx in sorted(feats.items()):
+        key = tuple(idx)
+        if 0 < len(idx) < len(jobs) and key not in seen:
+            seen.add(key)
+            out.append((name, idx))
+    return out
+
+
 def construct_tags(defn):
     return sorted(dsl.constructs(defn))
 
